@@ -392,3 +392,14 @@ _EXTRA16 = {
 }
 for _k, _v in _EXTRA16.items():
     PROPS[_k]['text'] = PROPS[_k]['text'].rstrip() + _v
+
+_EXTRA17 = {
+ 'C03': ' The C fill routines fill row by row (C03-R20); a region\'s extents are never assigned without its data (C03-R19).',
+ 'C05': ' Extents containment counts as coverage only for a single rectangle (C05-R14); extents and data change together (C05-R15).',
+ 'C07': ' Translate computes every coordinate from the box at hand (C07-R21); the bitmap import reads the bitmap itself (C07-R22).',
+ 'C11': ' The matrix unit keeps no state (C11-R20); every element of a product is computed from products (C11-R21).',
+ 'C13': ' The stop search starts at the first stop (C13-R19); the horizontal verdict looks at the y column of the transform (C13-R20).',
+ 'C19': ' fill_boxes reports success only after a drawing route was set up (C19-R18); the C fills work row by row (C19-R19).',
+}
+for _k, _v in _EXTRA17.items():
+    PROPS[_k]['text'] = PROPS[_k]['text'].rstrip() + _v
